@@ -136,6 +136,9 @@ def steepest_descent(A, b, x0=None, tol=1e-5, criteria='rr',
     else:
         raise ValueError('Invalid stopping criteria.')
 
+    if normr < rtol:
+        return (postprocess(x), 0)
+
     # How often should r be recomputed
     recompute_r = 50
 
